@@ -4,6 +4,7 @@ package shmipc
 
 import (
 	"sync"
+	"sync/atomic"
 	"time"
 )
 
@@ -58,6 +59,8 @@ type smWorld struct {
 	a, b   [2]smEnd // per stream index: the A-side end and the B-side end
 	nstr   int
 	hold   int
+	rdA    [96]byte // connection read buffers: every control event passes through them and the
+	rdB    [96]byte // next one overwrites it, as in the event loop
 	extra  [4]*Stream
 	nextra int
 }
@@ -103,11 +106,11 @@ func (w *smWorld) open() {
 
 // deliver: the receiving side's event loop consumes everything on its wire, in order
 func (w *smWorld) deliverAB() {
-	for i := range smWireAB {
-		n, err := w.B.handleEvents(smWireAB[i])
-		vfAssert(err == nil && n == len(smWireAB[i]), "SM.events-consumed-by-B")
+	for len(smWireAB) > 0 {
+		ev := smWireAB[0]
+		smWireAB = smWireAB[1:]
+		w.eventToB(ev)
 	}
-	smWireAB = nil
 	for i := 0; i < w.nstr; i++ {
 		w.b[i].deliv = w.b[i].sent
 	}
@@ -117,7 +120,7 @@ func (w *smWorld) deliverAB() {
 		vfAssert(err == nil && s != nil, "SM.accept")
 		for i := 0; i < w.nstr; i++ {
 			if w.a[i].stream.id == s.id {
-				smAssert(w.b[i].closed, "F-ZOMBIE", w.b[i].stream == nil, "C19.stream-surfaces-exactly-once")
+				smAssert(smZombie(w.b[i].closed, s), "F-ZOMBIE", w.b[i].stream == nil, "C19.stream-surfaces-exactly-once")
 				if w.b[i].stream != nil {
 					// the id surfaced a second time (data for a stream the server had already
 					// closed): the application closes what it accepts
@@ -131,13 +134,30 @@ func (w *smWorld) deliverAB() {
 	}
 }
 
+// eventToB: one control event arrives in the server's connection read buffer and is handled
+func (w *smWorld) eventToB(ev []byte) {
+	vfAssert(len(ev) <= len(w.rdB), "SM.event-fits-read-buffer")
+	copy(w.rdB[:], ev)
+	n, err := w.B.handleEvents(w.rdB[:len(ev)])
+	vfAssert(err == nil && n == len(ev), "SM.events-consumed-by-B")
+}
+
+// zombie: the stream surfaced for an id the server had already closed carries data (F-ZOMBIE);
+// without data nothing may re-create a closed stream
+func smZombie(closed bool, s *Stream) bool {
+	if !closed || s == nil {
+		return false
+	}
+	return len(s.pendingData.unread) > 0 || s.recvBuf.Len() > 0
+}
+
 func (w *smWorld) acceptAll() {
 	for len(w.B.acceptCh) > 0 {
 		s, err := w.B.AcceptStream()
 		vfAssert(err == nil && s != nil, "SM.accept")
 		for i := 0; i < w.nstr; i++ {
 			if w.a[i].stream.id == s.id {
-				smAssert(w.b[i].closed, "F-ZOMBIE", w.b[i].stream == nil, "C19.stream-surfaces-exactly-once")
+				smAssert(smZombie(w.b[i].closed, s), "F-ZOMBIE", w.b[i].stream == nil, "C19.stream-surfaces-exactly-once")
 				if w.b[i].stream != nil {
 					w.extra[w.nextra] = s
 					w.nextra++
@@ -151,16 +171,19 @@ func (w *smWorld) acceptAll() {
 
 // deliverOneAB: only the oldest control event is handled (the rest is still "on the wire")
 func (w *smWorld) deliverOneAB() {
-	n, err := w.B.handleEvents(smWireAB[0])
-	vfAssert(err == nil && n == len(smWireAB[0]), "SM.events-consumed-by-B")
+	ev := smWireAB[0]
 	smWireAB = smWireAB[1:]
+	w.eventToB(ev)
 	w.acceptAll()
 }
 
 func (w *smWorld) deliverBA() {
 	for i := range smWireBA {
-		n, err := w.A.handleEvents(smWireBA[i])
-		vfAssert(err == nil && n == len(smWireBA[i]), "SM.events-consumed-by-A")
+		ev := smWireBA[i]
+		vfAssert(len(ev) <= len(w.rdA), "SM.event-fits-read-buffer")
+		copy(w.rdA[:], ev)
+		n, err := w.A.handleEvents(w.rdA[:len(ev)])
+		vfAssert(err == nil && n == len(ev), "SM.events-consumed-by-A")
 	}
 	smWireBA = nil
 	for i := 0; i < w.nstr; i++ {
@@ -311,6 +334,14 @@ func (w *smWorld) monotone() {
 			st := e.stream.state
 			vfAssert(smRank(st) >= smRank(e.lastSt), "C10.state-only-moves-forward")
 			e.lastSt = st
+			if e.closed {
+				sess := w.A
+				if side == 1 {
+					sess = w.B
+				}
+				cur := sess.streams[e.stream.id]
+				smAssert(smZombie(true, cur), "F-ZOMBIE", cur == nil, "C10.closed-stream-stays-inactive")
+			}
 		}
 	}
 }
@@ -375,7 +406,7 @@ func H_SM_history() {
 		case 6:
 			w.deliverBA()
 		case 7:
-			w.send(i, false, 3)
+			w.send(i, false, []int{3, 9}[vfShape("bsize", 0, 1)])
 		default:
 			w.recv(i, true, 3)
 		}
@@ -591,15 +622,19 @@ func H_C19_conn() {
 }
 
 // ---------------------------------------------------------------------------------------------
-// C20 / C10 (callback mode, single schedule): the callback goroutine started by
-// fillDataToReadBuffer runs to completion at the point where it is started (go_policy=inline).
+// C20 / C10 (callback mode): the callback goroutine started by fillDataToReadBuffer runs when the
+// harness lets it (right after the event loop finished the event, or after later arrivals), and
+// arrivals and the peer's close can fall inside a running OnData.
 // This decides the data path of callback mode for every message size and consumption pattern
 // (every byte offered once, in order; nothing left unoffered at quiescence; nothing offered after
 // close; close reports) - NOT the interleavings of arrivals with a running callback.
 
 type c20CB struct {
-	st           *Stream
-	mode         [6]int // per invocation: 0 consume everything, 1 consume one byte, 2 consume everything and Close
+	w    *smWorld
+	st   *Stream
+	mode [6]int // per invocation: 0 consume everything, 1 consume one byte, 2 consume everything and Close, 3 consume one byte and Close (the rest must never be offered),
+	// 4 consume one byte, 5 consume everything - and while the callback is still running the peer flushes another
+	// message which the event loop handles; 6 consume everything, and the peer's Close arrives while the callback runs
 	calls        int
 	seen         [64]byte
 	nseen        int
@@ -625,7 +660,7 @@ func (c *c20CB) OnData(r BufferReader) {
 	}
 	c.calls++
 	n := r.Len()
-	if m == 1 {
+	if m == 1 || m == 3 || m == 4 {
 		n = 1
 	}
 	b, err := r.ReadBytes(n)
@@ -638,12 +673,39 @@ func (c *c20CB) OnData(r BufferReader) {
 		}
 	}
 	r.ReleasePreviousRead()
-	if m == 2 {
+	if (m == 4 || m == 5) && !c.w.a[0].closed {
+		// the event loop is another goroutine: it may handle an arrival between any two steps of
+		// the callback
+		c.w.send(0, true, []int{1, 3, 9}[vfShape("during", 0, 2)])
+		c.w.deliverAB()
+	}
+	if m == 6 && !c.w.a[0].closed {
+		c.w.closeEnd(0, true)
+		c.w.deliverAB()
+	}
+	if m == 2 || m == 3 {
 		c.closedInside = true
 		c.st.Close()
 	}
 	c.active--
 }
+
+// The callback goroutine is started through gopool.Go, which is replaced (in the model and in the
+// native replay alike) by a recorder: the harness decides when the started goroutines run, each
+// to completion. The event loop is idle then, so that what OnData does in modes 4-6 (the peer
+// flushes or closes and the event loop handles it) is an interleaving the real system has.
+var c20Pending []func()
+
+func vfstub_c20_gopoolGo(f func()) { c20Pending = append(c20Pending, f) }
+
+func c20RunCallbacks() {
+	for len(c20Pending) > 0 {
+		f := c20Pending[0]
+		c20Pending = c20Pending[1:]
+		f()
+	}
+}
+
 func (c *c20CB) OnLocalClose()  { c.local++ }
 func (c *c20CB) OnRemoteClose() { c.remote++ }
 
@@ -664,7 +726,8 @@ func (l *c20Listen) OnShutdown(reason string) {}
 
 func H_C20_inline() {
 	w := smSetup()
-	cb := &c20CB{}
+	c20Pending = nil
+	cb := &c20CB{w: w}
 	w.B.config.listenCallback = &c20Listen{cb: cb}
 	w.open()
 	M := vfShape("messages", 1, 3)
@@ -673,7 +736,7 @@ func H_C20_inline() {
 	}
 	ninv := vfShape("patterned", 0, 3)
 	for j := 0; j < ninv; j++ {
-		cb.mode[j] = vfShape("mode", 0, 2)
+		cb.mode[j] = vfShape("mode", 0, 6)
 	}
 	total := 0
 	closeAt := vfShape("closeAfter", 0, M) // 0: never; k: A closes after its k-th message
@@ -685,16 +748,23 @@ func H_C20_inline() {
 		_ = before
 		if vfShape("deliverNow", 0, 1) == 1 || m == M-1 {
 			w.deliverAB()
+			if vfShape("lag", 0, 1) == 0 {
+				// 1: the callback goroutine only gets to run after later arrivals
+				c20RunCallbacks()
+			}
 		}
 		if closeAt == m+1 {
 			w.closeEnd(0, true)
 			w.deliverAB()
+			c20RunCallbacks()
 		}
 	}
 	w.deliverAB()
+	c20RunCallbacks()
 	if cb.st != nil {
 		cb.st.asyncGoroutineWg.Wait()
 	}
+	total = w.b[0].sent
 	vfAssert(!cb.overlap, "C20.OnData-never-runs-twice-at-once")
 	vfAssert(cb.nseen <= total, "C20.never-offered-twice")
 	for i := 0; i < 64; i++ {
@@ -708,7 +778,7 @@ func H_C20_inline() {
 		vfAssert(cb.nseen == total, "C20.every-byte-offered-without-further-traffic")
 		vfAssert(cb.st.recvBuf.Len() == 0 && len(cb.st.pendingData.unread) == 0, "C20.nothing-left-unoffered")
 	}
-	if closeAt > 0 && cb.st != nil && !cb.closedInside {
+	if w.a[0].closed && cb.st != nil && !cb.closedInside {
 		vfAssert(cb.remote == 1 && cb.local == 0, "C10.remote-close-reported-exactly-once")
 	}
 	if cb.closedInside {
@@ -721,6 +791,64 @@ func H_C20_inline() {
 		}
 	}
 	vfCover("C20.inline.end")
+}
+
+// ---------------------------------------------------------------------------------------------
+// C20 (hand-off window, sync-point hook): the callback goroutine is stopped in front of its k-th
+// synchronisation operation (atomic, lock acquisition, channel operation) and, while it is stopped,
+// the peer flushes another message that the event loop handles, or closes. Covers every placement
+// of ONE such burst relative to the goroutine's flag hand-off (clear, re-check pending, re-take);
+// stopping points inside a critical section the burst needs are infeasible and pruned.
+func H_C20_window() {
+	vfInfeasibleOK()
+	w := smSetup()
+	c20Pending = nil
+	cb := &c20CB{w: w}
+	w.B.config.listenCallback = &c20Listen{cb: cb}
+	w.open()
+	for j := 0; j < 6; j++ {
+		cb.mode[j] = 0
+	}
+	cb.mode[0] = vfShape("first", 0, 1)
+	w.send(0, true, []int{1, 3, 9}[vfShape("size", 0, 2)])
+	w.deliverAB()
+	cut := vfShape("cut", 0, 40)
+	adv := vfShape("adversary", 0, 1)
+	fired := false
+	vfSyncHook(cut, func() {
+		fired = true
+		if adv == 0 {
+			w.send(0, true, []int{1, 9}[vfShape("during", 0, 1)])
+		} else {
+			w.closeEnd(0, true)
+		}
+		w.deliverAB()
+	})
+	c20RunCallbacks()
+	vfStallHookOff()
+	if !fired {
+		vfPrune() // the goroutine has fewer synchronisation operations than the cut
+	}
+	c20RunCallbacks() // a goroutine started by the arrival inside the window
+	if cb.st != nil {
+		cb.st.asyncGoroutineWg.Wait()
+	}
+	total := w.b[0].sent
+	vfAssert(cb.st != nil, "C20.window.setup")
+	vfAssert(len(c20Pending) == 0, "C20.no-callback-goroutine-left-unstarted")
+	vfAssert(cb.nseen <= total, "C20.never-offered-twice")
+	for i := 0; i < 64; i++ {
+		if i < cb.nseen {
+			vfAssert(cb.seen[i] == w.b[0].model[i], "C20.offered-in-order")
+		}
+	}
+	vfAssert(cb.nseen == total, "C20.every-byte-offered-without-further-traffic")
+	vfAssert(cb.st.recvBuf.Len() == 0 && len(cb.st.pendingData.unread) == 0, "C20.nothing-left-unoffered")
+	vfAssert(atomic.LoadUint32(&cb.st.callbackInProcess) == 0, "C20.flag-clear-at-quiescence")
+	if adv == 1 {
+		vfAssert(cb.remote == 1 && cb.local == 0, "C10.remote-close-reported-exactly-once")
+	}
+	vfCover("C20.window.end")
 }
 
 // ---------------------------------------------------------------------------------------------
